@@ -149,6 +149,12 @@ func HarnessC10BaseGunShoot() {
 	body := io.NopCloser(strings.NewReader("payload"))
 	hdr := http.Header{"X-A": []string{"1"}}
 	u := &url.URL{Path: "/a/b", RawQuery: "q=1"}
+	emptyPath := vNondetBool("emptyPath") // an ammo URI without a path ("http://host?q=1"): nothing to derive a tag from
+	if emptyPath {
+		// (with a tagged ammo the empty auto-tag is appended as "tag|": not judged here)
+		vAssume(tag == "")
+		u.Path = ""
+	}
 	req := &http.Request{Method: "POST", URL: u, Header: hdr, Host: host, Body: body}
 	invalid := vNondetBool("invalid")
 	am := &hHTTPAmmo{req: req, sample: netsample.Acquire(tag), invalid: invalid, id: 7}
@@ -185,7 +191,7 @@ func HarnessC10BaseGunShoot() {
 	}
 	// G3 tags
 	exp := tag
-	if cfg.AutoTag.Enabled && (!cfg.AutoTag.NoTagOnly || tag == "") {
+	if cfg.AutoTag.Enabled && (!cfg.AutoTag.NoTagOnly || tag == "") && !emptyPath {
 		if exp == "" {
 			exp = "/a"
 		} else {
@@ -209,7 +215,7 @@ func HarnessC10BaseGunShoot() {
 		vCheck("H3.host.defaults.to.target", cl.host == "target.example")
 	}
 	vCheck("H3.method.kept", cl.got.Method == "POST")
-	vCheck("H3.path.query.kept", cl.got.URL.Path == "/a/b" && cl.got.URL.RawQuery == "q=1")
+	vCheck("H3.path.query.kept", cl.got.URL.Path == u.Path && cl.got.URL.RawQuery == "q=1")
 	vCheck("H3.body.bytes.kept", cl.sentOK && string(cl.sent) == "payload")
 	if logMode == 0 || logMode == 1 {
 		// (dumping / answ logging hands the client an equal copy instead of the ammo's own reader)
